@@ -23,6 +23,7 @@ META = {"text": "Fault enumeration on the implementation driven by the specifica
 
 def base_prog(rng, quick):
     p = K.gen_comm_prog(rng, max_actors=3, max_ops=3 if quick else 4, timed=True)
+    p["lat"] = rng.choice([0, 2, 3])          # a failure may hit a communication during its latency phase
     p["perm"] = [0] * len(p["perm"])          # an eager send towards a dead permanent receiver is an assertion, out of scope
     for a in p["actors"]:
         if rng.random() < 0.5:
